@@ -376,6 +376,41 @@ func c16Cases(tier string) ([]chainCase, map[string]int) {
 				}})
 		}
 	}
+	// a transaction signed by a multi-signature key (its account is funded in a block before): the ante handler takes
+	// another path for such signers; the identical bytes must be recognised as a duplicate all the same
+	{
+		addr := multiAddrHex("A1", "A2")
+		fund := blk(tx("send", "A1", "to", addr, "amount", "100000"))
+		mt := tx("send", "multi:A1+A2", "from", addr, "to", "A2", "amount", "7")
+		bz, err := buildTxBytes(mt, firstHeight+1)
+		if err != nil {
+			panic(err)
+		}
+		first := TxSpec{Kind: "raw:multisig-send:original", Raw: hex.EncodeToString(bz)}
+		for _, gap := range []int{0, 1, 2} {
+			gap := gap
+			ref, sub := []BlockSpec{fund}, []BlockSpec{fund}
+			if gap == 0 {
+				ref, sub = append(ref, blk(first)), append(sub, blk(first, first))
+			} else {
+				ref, sub = append(ref, blk(first)), append(sub, blk(first))
+				for i := 1; i < gap; i++ {
+					ref, sub = append(ref, BlockSpec{}), append(sub, BlockSpec{})
+				}
+				ref, sub = append(ref, BlockSpec{}), append(sub, blk(first))
+			}
+			cases = append(cases, chainCase{Name: fmt.Sprintf("multisig-send/identical-bytes/gap%d", gap), Class: "identical", Env: env, Ref: ref, Subject: sub, Want: []string{"balances"},
+				Oracle: func(r, s JobResult) (string, string) {
+					if len(r.Blocks) < 2 || len(r.Blocks[1].Txs) < 1 || r.Blocks[1].Txs[0].Code != 0 {
+						return "harness:multisig", fmt.Sprintf("the multi-signature send of the scenario was not accepted the first time: %+v", r.Blocks)
+					}
+					if lastHash(r) != lastHash(s) {
+						return "signed-tx-took-effect-twice/identical-bytes", fmt.Sprintf("a send signed by a 2-of-2 multi-signature key took effect once, then its identical bytes submitted %d block(s) later were executed again (result code %d; additional balance changes %s)", gap, lastTx(s).Code, deltaStr(balanceDelta(r, s)))
+					}
+					return "", ""
+				}})
+		}
+	}
 	return cases, stats
 }
 
